@@ -104,14 +104,29 @@ func (an *aliasAn) roots1(v ssa.Value) rootSet {
 			if fv := forwardLoad(x); fv != nil {
 				return an.roots(fv)
 			}
-			// load from a local variable: union of everything stored into it
-			if al, ok := x.X.(*ssa.Alloc); ok {
+			// load from a local variable: union of everything stored into it (field-insensitive for struct locals: whole
+			// stores and the stores into any of its fields)
+			al, isAl := x.X.(*ssa.Alloc)
+			if fa, isFA := x.X.(*ssa.FieldAddr); isFA && !isAl {
+				al, isAl = fa.X.(*ssa.Alloc)
+			}
+			if isAl {
 				out := rootSet{}
 				n := 0
 				for _, ref := range *al.Referrers() {
-					if st, ok := ref.(*ssa.Store); ok && st.Addr == ssa.Value(al) {
-						out.add(an.roots(st.Val))
-						n++
+					switch y := ref.(type) {
+					case *ssa.Store:
+						if y.Addr == ssa.Value(al) {
+							out.add(an.roots(y.Val))
+							n++
+						}
+					case *ssa.FieldAddr:
+						for _, rr := range *y.Referrers() {
+							if st, ok := rr.(*ssa.Store); ok && st.Addr == ssa.Value(y) && hasRefs(st.Val.Type()) {
+								out.add(an.roots(st.Val))
+								n++
+							}
+						}
 					}
 				}
 				if n > 0 {
@@ -120,6 +135,8 @@ func (an *aliasAn) roots1(v ssa.Value) rootSet {
 			}
 			return rootSet{"unknown:load(" + describe(x.X) + ")": true}
 		}
+	case *ssa.Field:
+		return an.roots(x.X) // a field of a struct value: whatever the struct may hold
 	case *ssa.Extract:
 		if c, ok := x.Tuple.(*ssa.Call); ok {
 			return an.callRoots(c, x.Index)
